@@ -17,6 +17,7 @@ PROPS = {
     ),
     'C08': dict(
         bounded_families=['iter'],
+        kani=True,
         level='proof',
         explanation=("Matches::next (find_iter) is verified by Verus to be exactly one step of the reference iteration model transcribed from the property "
                      "(search from the previous end with the skipped-empty flag, step one character after an empty match, drop an empty match adjacent to the previous match, "
@@ -56,6 +57,7 @@ PROPS = {
     ),
     'C13': dict(
         bounded_families=['analyze'],
+        kani=True,
         level='proof',
         explanation=("Analyzer::visit is verified by Verus, for EVERY expression tree (structural induction carried by the real recursive function), against the spec match-length relation len_of: "
                      "at every node of the Info tree no n with len_of(e, n) is below the computed min_size, and when const_size is set every n <= usize::MAX with len_of(e, n) equals min_size "
@@ -68,6 +70,7 @@ PROPS = {
                      "T-bitset: bit_set::BitSet::contains is a pure membership test"],
     ),
     'C17': dict(
+        kani=True,
         level='proof',
         explanation=("Verified by Verus: is_special is exactly the 15-character meta set; push_quoted appends quote(s) (each meta-character preceded by one backslash, everything else verbatim) for every string; "
                      "lemma_unquote_quote: reading a quoted string back yields the original; lemma_quote_id: a string without meta-characters is its own quoting; "
@@ -78,6 +81,7 @@ PROPS = {
         bounded_families=['quote'],
     ),
     'C06': dict(
+        kani=True,
         level='proof',
         explanation=("Verified by Verus for every expression tree / every input: the analysis (Analyzer::visit, analyze) has no arithmetic overflow (Verus checks every + - *; the group counter is bounded by the tree's group count) and terminates; "
                      "whatever the analysis does not label hard is in the syntactic class `easy` (lemma_easy) and Expr::to_str on an easy tree never reaches its panic!, terminates, and push_usize never overflows its u8 digit arithmetic; "
@@ -88,6 +92,7 @@ PROPS = {
         bounded_families=['analyze', 'parse'],
     ),
     'C05': dict(
+        kani=True,
         level='proof',
         bounded_families=['search', 'iter'],
         explanation=("vm::run is verified by Verus for every well-formed program, every text and every start offset on a char boundary: every index, slice (&s[lo..hi] in Backref included), "
@@ -176,6 +181,7 @@ PROPS = {
         assumptions=["the corpus and bounds listed in coverage.bounded"],
     ),
     'C12': dict(
+        kani=True,
         level='other',
         bounded_families=['expand'],
         explanation=("BOUNDED ONLY. Expander::exec / parse_id / parse_decimal are built on Chars::as_str, char_indices().peekable(), closures and full-Unicode char predicates: outside Verus' dialect, and intractable for Kani "
